@@ -11,20 +11,22 @@ import PartituraModel.Proofs.C04Cells
 namespace C04
 open Model Model.Ticks Model.MidiPair Model.MidiModes Model.ScoreMidi
 
-/-- **Round trip with the grouping.**  Under the hypotheses of `roundtrip_ticks` (any anacrusis policy), the notes
-    of the imported parts, each with its part number and voice, are exactly the score's sounding notes at their
-    written ticks, each with the (part, voice) of the cell that the importer's `assign_group_part_voice` (same mode,
-    over the sorted (track, channel) pairs the exporter used) gives to the (track, channel) of the note's key
-    (`writtenCells`, `keyTag`). -/
-theorem roundtrip_cells (mode : Nat) (a : Anacrusis) (minPpq vel : Nat) (parts : List PartIn) (ex : Exported)
-    (imp : Imported)
+/-- **Round trip with the grouping, any import mode.**  Under the hypotheses of `roundtrip_ticks` (any anacrusis
+    policy), export with mode `mode` and import with mode `imode` (the same or another one): the notes of the
+    imported parts, each with its part number and voice, are exactly the score's sounding notes at their written
+    ticks, each with the (part, voice) of the cell that the importer's `assign_group_part_voice` (mode `imode`, over
+    the sorted (track, channel) pairs the exporter used) gives to the (track, channel) of the note's key
+    (`writtenCells`, `keyTag`) — what an import in another mode recovers of the grouping is exactly what
+    `mode_import` says of the (track, channel) pairs `mode_export` wrote. -/
+theorem roundtrip_cells_any_import_mode (mode imode : Nat) (a : Anacrusis) (minPpq vel : Nat) (parts : List PartIn)
+    (ex : Exported) (imp : Imported)
     (h : saveScoreMidi mode a minPpq vel parts = some ex)
-    (hi : loadScoreMidi mode ex.ppq (ex.tracks.map (deltasFrom 0)) = some imp)
+    (hi : loadScoreMidi imode ex.ppq (ex.tracks.map (deltasFrom 0)) = some imp)
     (hvel : 0 < vel) (hw : ∀ x ∈ parts, C04T.WellFormed x.base)
     (hno : ∀ o tcs, origin a (parts.map (·.base)) = some o → mapToTrackChannel mode (noteKeys parts) = some tcs →
       ∀ tr, C04P.NoOverlap (routedTo ex.ppq o vel ((noteKeys parts).zip tcs) parts tr)) :
     ∃ o tcs, origin a (parts.map (·.base)) = some o ∧ mapToTrackChannel mode (noteKeys parts) = some tcs ∧
-      (importedCells imp).Perm (writtenCells mode ex.ppq o ((noteKeys parts).zip tcs) parts) := by
+      (importedCells imp).Perm (writtenCells imode ex.ppq o ((noteKeys parts).zip tcs) parts) := by
   obtain ⟨o, tcs, ho, htc, hppq, hkeys, _, hpair⟩ := export_pairing_sound mode a minPpq vel parts ex h hvel hw
   refine ⟨o, tcs, ho, htc, ?_⟩
   have hlen : (noteKeys parts).length = tcs.length := by
@@ -41,7 +43,7 @@ theorem roundtrip_cells (mode : Nat) (a : Anacrusis) (minPpq vel : Nat) (parts :
         simp [this]
       | cons k' ks => rw [hk, mode_export_rejects mode h5] at htc; cases htc
   have hsnd : ((noteKeys parts).zip tcs).map (·.2) = tcs := C04I.zip_map_snd _ _ hlen
-  have hic := C04C.import_cells mode ex.ppq _ imp hi
+  have hic := C04C.import_cells imode ex.ppq _ imp hi
   simp only at hic
   -- each track read back is the notes routed to it
   have hpair' : ∀ tr (htr : tr < ex.tracks.length),
@@ -114,7 +116,7 @@ theorem roundtrip_cells (mode : Nat) (a : Anacrusis) (minPpq vel : Nat) (parts :
     rw [htc'] at htc''
     cases htc''
     exact hlt
-  have hrt := C04C.routes_tagged (fun tc => tagOf (lookup tc (cellTable mode tcs))) ((noteKeys parts).zip tcs) vel
+  have hrt := C04C.routes_tagged (fun tc => tagOf (lookup tc (cellTable imode tcs))) ((noteKeys parts).zip tcs) vel
     ex.tracks.length (exportRecs (C04E.tkOf ex.ppq o) parts) hb
   refine (List.Perm.trans ?_ hrt).trans (List.Perm.of_eq ?_)
   · apply List.Perm.flatMap_left
@@ -131,6 +133,18 @@ theorem roundtrip_cells (mode : Nat) (a : Anacrusis) (minPpq vel : Nat) (parts :
     intro n _
     simp only [Function.comp, keyTag, hsnd, Option.map_map]
     rfl
+
+/-- **Round trip with the grouping** (export and import with the same mode): the instance `imode = mode`. -/
+theorem roundtrip_cells (mode : Nat) (a : Anacrusis) (minPpq vel : Nat) (parts : List PartIn) (ex : Exported)
+    (imp : Imported)
+    (h : saveScoreMidi mode a minPpq vel parts = some ex)
+    (hi : loadScoreMidi mode ex.ppq (ex.tracks.map (deltasFrom 0)) = some imp)
+    (hvel : 0 < vel) (hw : ∀ x ∈ parts, C04T.WellFormed x.base)
+    (hno : ∀ o tcs, origin a (parts.map (·.base)) = some o → mapToTrackChannel mode (noteKeys parts) = some tcs →
+      ∀ tr, C04P.NoOverlap (routedTo ex.ppq o vel ((noteKeys parts).zip tcs) parts tr)) :
+    ∃ o tcs, origin a (parts.map (·.base)) = some o ∧ mapToTrackChannel mode (noteKeys parts) = some tcs ∧
+      (importedCells imp).Perm (writtenCells mode ex.ppq o ((noteKeys parts).zip tcs) parts) :=
+  roundtrip_cells_any_import_mode mode mode a minPpq vel parts ex imp h hi hvel hw hno
 
 /-- **The import of an export returns.**  When the score has at least one sounding note (and the export returned, which
     forces one of the six modes), `load_score_midi` with the same mode returns on the written file — so the hypothesis
@@ -210,6 +224,70 @@ theorem grouping_recovered (mode : Nat) (hm : mode ≤ 5) (parts : List PartIn) 
       exact ⟨h1, C04C.voiceInt_inj _ _ s₁ s₂ h2⟩
     · rintro ⟨h1, h2⟩
       exact ⟨h1, by rw [h2]⟩
+
+/-- what exporting with mode `mode` and importing with mode `imode` retains of the grouping of the notes: import
+    modes 0, 1, 5 give every (track, channel) its own part / voice, so what the export mode put on one (track,
+    channel) stays together; import modes 2 and 3 read a track as one voice / part, so what the export mode put in one
+    track stays together; import mode 4 merges everything -/
+def RetainedCross (mode imode : Nat) (a b : Key) : Prop :=
+  match imode with
+  | 2 => C04M.SameTrack mode a b
+  | 3 => C04M.SameTrack mode a b
+  | 4 => True
+  | _ => C04M.SameTC mode a b
+
+/-- **Grouping recovered, any import mode.**  Export with mode `mode`, import with mode `imode` (both 0..5): every note
+    key has a (part, voice) in which its notes come back (the tag `roundtrip_cells_any_import_mode` attaches), and the
+    notes of two keys come back in the same part and voice exactly when `RetainedCross mode imode` relates the keys. -/
+theorem grouping_recovered_any_import_mode (mode imode : Nat) (hm : mode ≤ 5) (him : imode ≤ 5) (parts : List PartIn)
+    (tcs : List (Nat × Nat)) (htc : mapToTrackChannel mode (noteKeys parts) = some tcs) :
+    ∀ k₁ ∈ noteKeys parts, ∀ k₂ ∈ noteKeys parts,
+      ∃ t₁ t₂, keyTag imode ((noteKeys parts).zip tcs) k₁ = some t₁ ∧ keyTag imode ((noteKeys parts).zip tcs) k₂ = some t₂ ∧
+        (t₁ = t₂ ↔ RetainedCross mode imode k₁ k₂) := by
+  intro k₁ hk₁ k₂ hk₂
+  have hlen : (noteKeys parts).length = tcs.length := ((mode_export mode hm _ _ htc).1).symm
+  have hsnd : ((noteKeys parts).zip tcs).map (·.2) = tcs := C04I.zip_map_snd _ _ hlen
+  obtain ⟨tc₁, hl₁⟩ := C04E.lookup_zip_some k₁ (noteKeys parts) tcs hlen hk₁
+  obtain ⟨tc₂, hl₂⟩ := C04E.lookup_zip_some k₂ (noteKeys parts) tcs hlen hk₂
+  have hm₁ := C04E.lookup_mem _ _ _ hl₁
+  have hm₂ := C04E.lookup_mem _ _ _ hl₂
+  obtain ⟨c₁, hc₁⟩ := C04M.assign_total imode (sortedTC tcs) tc₁ ((C04M.mem_sortedTC _ _).mpr (List.of_mem_zip hm₁).2)
+  obtain ⟨c₂, hc₂⟩ := C04M.assign_total imode (sortedTC tcs) tc₂ ((C04M.mem_sortedTC _ _).mpr (List.of_mem_zip hm₂).2)
+  have hz₁ := C04C.lookup_zip_nodup _ _ (C04I.sortedTC_nodup tcs) _ _ hc₁
+  have hz₂ := C04C.lookup_zip_nodup _ _ (C04I.sortedTC_nodup tcs) _ _ hc₂
+  refine ⟨tagOf (some c₁), tagOf (some c₂), ?_, ?_, ?_⟩
+  · simp only [keyTag, hl₁, Option.map_some, hsnd, cellTable]
+    rw [hz₁]
+  · simp only [keyTag, hl₂, Option.map_some, hsnd, cellTable]
+    rw [hz₂]
+  · obtain ⟨e1, e2⟩ := C04M.export_modes mode hm (noteKeys parts) tcs htc (k₁, tc₁) hm₁ (k₂, tc₂) hm₂
+    obtain ⟨i1, _⟩ := C04M.import_modes imode him (sortedTC tcs) (tc₁, c₁) hc₁ (tc₂, c₂) hc₂
+    simp only at e1 e2 i1
+    have s₁ := C04C.assign_voice_shape imode (sortedTC tcs) c₁ (List.of_mem_zip hc₁).2
+    have s₂ := C04C.assign_voice_shape imode (sortedTC tcs) c₂ (List.of_mem_zip hc₂).2
+    have htag : tagOf (some c₁) = tagOf (some c₂) ↔ (c₁.2.1 = c₂.2.1 ∧ c₁.2.2 = c₂.2.2) := by
+      simp only [tagOf, Prod.mk.injEq]
+      constructor
+      · rintro ⟨h1, h2⟩
+        exact ⟨h1, C04C.voiceInt_inj _ _ s₁ s₂ h2⟩
+      · rintro ⟨h1, h2⟩
+        exact ⟨h1, by rw [h2]⟩
+    rw [htag, i1]
+    match imode, him with
+    | 0, _ => simpa [C04M.SameCellIn, RetainedCross] using e2
+    | 1, _ => simpa [C04M.SameCellIn, RetainedCross] using e2
+    | 2, _ => simpa [C04M.SameCellIn, RetainedCross] using e1
+    | 3, _ => simpa [C04M.SameCellIn, RetainedCross] using e1
+    | 4, _ => simp [C04M.SameCellIn, RetainedCross]
+    | 5, _ => simpa [C04M.SameCellIn, RetainedCross] using e2
+
+/-- non-vacuity: `demoScore` exported with mode 0 (a track per part, a channel per voice) and imported with mode 3
+    (a part per track): the three note keys come back in parts 0, 0 and 1 — the parts are recovered, the voices
+    are not -/
+example : mapToTrackChannel 0 (noteKeys demoScore) = some [(0, 1), (0, 2), (1, 1)] ∧
+    (noteKeys demoScore).map (keyTag 3 ((noteKeys demoScore).zip [(0, 1), (0, 2), (1, 1)])) =
+      [some (some 0, 0), some (some 0, 0), some (some 1, 0)] := by
+  refine ⟨by decide +kernel, by decide +kernel⟩
 
 /-- non-vacuity on `demoScore`, mode 1 (both parts in one group: one track, a channel per part, voices lost):
     the three note keys come back in parts 0, 0 and 1 -/
